@@ -230,6 +230,40 @@ func propC08(c *ctx) error {
 			})
 		}
 	}
+	// malformed VALUES of the directives that have a syntax of their own (with / range / remove / define / insert): every
+	// combination of complete and dangling pieces loads or fails to load, and renders or fails to render — no panic
+	{
+		withPieces := []string{"a := ${1}", "b :=", ":= ${2}", "c", ";", "${3}", "d := ${nope}", " ", "e := ${1} f := ${2}", ":=", "g := ${1};"}
+		var vals []string
+		for _, p1 := range withPieces {
+			vals = append(vals, p1)
+			for _, p2 := range withPieces {
+				vals = append(vals, p1+"; "+p2, p1+" "+p2)
+			}
+		}
+		rangeVals := []string{"", ":", ",", "i,", ", x", "i, x", "i, x :", ": xs", "i, x, y : xs", "i x : xs", "x : ", "x : xs :", "x :: xs", "${x} : xs", "i, x : xs : ys", "'", "x : 'a"}
+		slots := map[string][]string{"with": vals, "range": rangeVals, "remove": {"", "nonsense", "ALL", "all but first", "${'all'}", "${nope}"},
+			"define": {"", "${nope}", "${1/0}", " "}, "insert": {"", " ", "${''}", "${nil}"}, "if": {"", " ", "maybe", "${nil}"}}
+		for slot, vs := range slots {
+			for _, v := range vs {
+				for _, q := range []string{"\"", "'"} {
+					if strings.Contains(v, q) {
+						continue
+					}
+					tplSrc := `<p :` + slot + `=` + q + v + q + ` :title="${a}">o<b :text="${a}">x</b></p><i>after</i>`
+					res.eval("mv|"+tplSrc, true, J{"src": tplSrc})
+					guard("Add+Execute (malformed directive value)", tplSrc, func() {
+						m, err, _ := implLoadNoRecover([][2]string{{"t", tplSrc}})
+						if err == nil {
+							t, _ := m.tm.GetTemplate("t")
+							var sb strings.Builder
+							t.Execute(&sb, map[string]any{"a": 1, "xs": []int{1, 2}})
+						}
+					})
+				}
+			}
+		}
+	}
 	// fragments that include themselves: run in a child process first, because a stack overflow is a fatal error
 	// that no recover() can observe
 	if exe, err := os.Executable(); err == nil {
